@@ -8,7 +8,7 @@
 From VF Require Import Base.Prelude Gen.Enums Gen.Configs Gen.Policy Gen.Registry Gen.Checks
      Gen.MatDesc Gen.InstChecks Gen.Scopes Model.Recipe Model.Check Model.Graph
      Model.Plan Model.Perform Spec.WF Proofs.ListFacts Proofs.PerformStep Proofs.ModeProofs Proofs.PlanProofs
-     Proofs.UntouchedProofs Model.Insts Proofs.InstsCover Proofs.GroupNest Proofs.ReadersProofs Proofs.PerformInv Proofs.SkeletonInv Proofs.ReadersOrig Spec.LastOk Proofs.LastOkSound Model.Pipeline Proofs.GroupLists.
+     Proofs.UntouchedProofs Model.Insts Proofs.InstsCover Proofs.GroupNest Proofs.ReadersProofs Proofs.PerformInv Proofs.SkeletonInv Proofs.ReadersOrig Spec.LastOk Proofs.LastOkSound Model.Pipeline Proofs.GroupLists Proofs.GroupOrder.
 
 (* (a) mode -> per-operand transformation, for EVERY config in one of the
    three modes (static-range: integer compute with an activation config;
@@ -639,6 +639,27 @@ Theorem C03_consumer_lists_of_two_groups_are_nested_or_disjoint :
     incl (i_consumers i2) (i_consumers i1) \/ (forall c, In c (i_consumers i2) -> ~ In c (i_consumers i1)).
 Proof. exact consumer_lists_nested_or_disjoint. Qed.
 Print Assumptions C03_consumer_lists_of_two_groups_are_nested_or_disjoint.
+
+(* ORDER (Proofs/GroupOrder.v): the consumer-side instructions of a plan entry
+   are emitted by non-decreasing depth (vertical candidates = depth 1, then
+   depth 2, 3, ...); so of any two of them the LATER one's consumer list lies
+   inside the EARLIER one's or is disjoint from it. *)
+Theorem C03_consumer_side_instructions_are_emitted_by_depth :
+  forall p info groups vert others,
+    vertical_candidates groups p info = Ok vert -> other_consumer_insts groups p info = Ok others ->
+    exists tags, Forall2 (at_depth (consumers_list p) groups) tags (vert ++ others) /\
+                 Sorted.StronglySorted le tags.
+Proof. exact consumer_side_depth_sorted. Qed.
+Print Assumptions C03_consumer_side_instructions_are_emitted_by_depth.
+
+Theorem C03_later_consumer_list_is_inside_or_disjoint_from_an_earlier_one :
+  forall p info groups vert others l1 a l2 b l3,
+    group_consumer_transformations p = Ok groups -> inj_ops (consumers_list p) ->
+    vertical_candidates groups p info = Ok vert -> other_consumer_insts groups p info = Ok others ->
+    vert ++ others = l1 ++ a :: l2 ++ b :: l3 ->
+    incl (i_consumers b) (i_consumers a) \/ (forall c, In c (i_consumers b) -> ~ In c (i_consumers a)).
+Proof. exact later_consumer_list_inside_or_disjoint. Qed.
+Print Assumptions C03_later_consumer_list_is_inside_or_disjoint_from_an_earlier_one.
 
 (* non-vacuity: a quantized producer (DEQUANTIZE with A) read by
    op 3 (QUANTIZE with A), ops 4 and 6 (QUANTIZE with B, then DEQUANTIZE) and
